@@ -81,12 +81,20 @@ func vResolve(t *testing.T, cfgFile string) (*confmap.Conf, error) {
 	return r.Resolve(context.Background())
 }
 
+// vSubCfg: the component's section, taken with Conf.Sub (once, and through two levels) before Unmarshal
+type vSubCfg struct {
+	Tok  configopaque.String            `mapstructure:"tok"`
+	Hdr  map[string]configopaque.String `mapstructure:"hdr"`
+	List []configopaque.String          `mapstructure:"list"`
+	Inl  configopaque.String            `mapstructure:"inl"`
+}
+
 func vExpCase(out *vOut, ctx, text, stored string) {
 	term := "CUnm " + ctx + " " + vEnc(text) + " " + vEnc(stored)
 	out.Case(true, term)
-	out.Stat("expand_"+ctx, 1)
+	out.Stat("expand_"+strings.NewReplacer("(", "", ")", "", " ", "_").Replace(ctx), 1)
 	want := text
-	if ctx == "UExpInline" {
+	if strings.Contains(ctx, "UExpInline") {
 		want = "pre-" + text + "-post"
 	}
 	if stored != want {
@@ -103,6 +111,11 @@ func TestVerifC14Resolve(t *testing.T) {
 	ptrFile := filepath.Join(dir, "ptr.yaml")
 	if err := os.WriteFile(cfgFile, []byte("tok: ${env:VERIF_C14_SECRET}\nftok: ${file:"+secFile+"}\nhdr:\n  a: ${env:VERIF_C14_SECRET}\n"+
 		"list:\n  - ${env:VERIF_C14_SECRET}\ninl: pre-${env:VERIF_C14_SECRET}-post\nsub:\n  tok: ${VERIF_C14_SECRET}\n"), 0o600); err != nil {
+		t.Fatal(err)
+	}
+	subFile := filepath.Join(dir, "sub.yaml")
+	if err := os.WriteFile(subFile, []byte("exporters:\n  otlp:\n    tok: ${env:VERIF_C14_SECRET}\n    hdr:\n      a: ${env:VERIF_C14_SECRET}\n"+
+		"    list:\n      - ${env:VERIF_C14_SECRET}\n    inl: pre-${env:VERIF_C14_SECRET}-post\n"), 0o600); err != nil {
 		t.Fatal(err)
 	}
 	if err := os.WriteFile(ptrFile, []byte("ptr: ${env:VERIF_C14_SECRET}\n"), 0o600); err != nil {
@@ -143,6 +156,50 @@ func TestVerifC14Resolve(t *testing.T) {
 				vExpCase(out, "UExpSliceElem", text, fmt.Sprintf("<%d elements>", len(d.List)))
 			}
 			vExpCase(out, "UExpInline", text, string(d.Inl))
+		}
+		// ---- the same through Conf.Sub (what the collector does for every component's section)
+		if conf, err := vResolve(t, subFile); err != nil {
+			t.Fatalf("resolve sub file: %v", err)
+		} else {
+			for _, path := range [][]string{{"exporters", "otlp"}, {"exporters"}} {
+				sub, serr := conf, error(nil)
+				for _, k := range path {
+					if sub, serr = sub.Sub(k); serr != nil {
+						break
+					}
+				}
+				var ds vSubCfg
+				wrap := func(c string) string {
+					return strings.Repeat("(UViaSub ", len(path)) + c + strings.Repeat(")", len(path))
+				}
+				if serr == nil && len(path) == 1 {
+					var outer struct {
+						Otlp vSubCfg `mapstructure:"otlp"`
+					}
+					serr = sub.Unmarshal(&outer)
+					ds = outer.Otlp
+				} else if serr == nil {
+					serr = sub.Unmarshal(&ds)
+				}
+				if serr != nil {
+					how := "does not echo the text"
+					if len(text) >= 4 && strings.Contains(serr.Error(), text) {
+						how = "ECHOES the text"
+					}
+					term := "CUnmX " + wrap("UExpScalar") + " " + vEnc(text) + " OErr"
+					out.Case(true, term)
+					out.Oracle("unmarshal-changes-secret", term, fmt.Sprintf("context=Conf.Sub(%v) then Unmarshal: text %q (yaml class %s): FAILS and %s: %q; cause=unexplained", path, text, cls, how, serr.Error()))
+					continue
+				}
+				vExpCase(out, wrap("UExpScalar"), text, string(ds.Tok))
+				vExpCase(out, wrap("UExpMapVal"), text, string(ds.Hdr["a"]))
+				if len(ds.List) == 1 {
+					vExpCase(out, wrap("UExpSliceElem"), text, string(ds.List[0]))
+				} else {
+					vExpCase(out, wrap("UExpSliceElem"), text, fmt.Sprintf("<%d elements>", len(ds.List)))
+				}
+				vExpCase(out, wrap("UExpInline"), text, string(ds.Inl))
+			}
 		}
 		// ---- pointer target
 		conf, err = vResolve(t, ptrFile)
